@@ -721,6 +721,14 @@ def _is_normalising(ctx: Context, fi: FuncInfo, flow, d, seen=None) -> Tuple[boo
         return isinstance(e, ast.Call) and (ctx.res.external_name(fi, e) or dotted(e.func)).split(".")[-1] == "sum" and e.args and norm_text(e.args[0]) == name_txt \
             or (isinstance(e, ast.Call) and isinstance(e.func, ast.Attribute) and e.func.attr == "sum" and not e.args and norm_text(e.func.value) == name_txt)
 
+    # one reading of own-sum normalisation for every rule (power-sum algebra over the resolved statement)
+    if d.kind in ("aug", "assign") and d.stmt is not None and not d.path:
+        from ..util import own_sum_normalisation
+        dec, form, _vec = own_sum_normalisation(ctx, fi, d.stmt, d.node)
+        if dec is True:
+            return True, ""
+        if dec is False and d.kind == "aug":
+            return False, f"`{norm_text(d.stmt)[:50]}` gives {form}, not w / sum(w)"
     if d.kind == "aug":
         st = d.stmt
         if isinstance(st, ast.AugAssign) and isinstance(st.op, ast.Div) and is_sum_of(st.value, norm_text(st.target)):
@@ -962,7 +970,7 @@ def run(ctx: Context, R: Reporter):
 
 
 def variants():
-    from ..variants import Variant, alpha_rename, delete_stmt, insert_after, insert_before, replace_expr, replace_stmt
+    from ..variants import Variant, normalisation_twins, alpha_rename, delete_stmt, insert_after, insert_before, replace_expr, replace_stmt
 
     core = "tempest/core.py"
     return [
@@ -986,6 +994,7 @@ def variants():
         Variant("h-benign-facade-bound-result", "benign", _facade_filter(True)),
         Variant("b-early-return-on-resume", "bad", insert_before(core, "SamplerCore.run_sampling", "from .tools import ProgressBar", "if resume_state_path is not None and not self._not_termination():\n    return"), ["C12.b"], quick=True),
         Variant("benign-rename-idx", "benign", alpha_rename(core, "SamplerCore.compute_posterior", "idx", "sel"), quick=True),
+        *normalisation_twins("e", core, "SamplerCore.compute_posterior", "weights /= np.sum(weights)", "weights", True, ["C12.e"]),
         # uniform weights after resampling: the accepted spellings, and the near misses that must still be reported
         Variant("c-benign-uniform-full-local-len", "benign", replace_stmt(core, "SamplerCore.compute_posterior", "weights = np.ones(len(idx)) / len(idx)", "n_draws = len(idx)\nweights = np.full(n_draws, 1.0 / n_draws, dtype=np.float64)"), quick=True),
         Variant("c-benign-uniform-ones-times-recip", "benign", replace_stmt(core, "SamplerCore.compute_posterior", "weights = np.ones(len(idx)) / len(idx)", "weights = np.ones(idx.shape[0]) * (1.0 / idx.shape[0])")),
